@@ -546,6 +546,10 @@ def simulate(flat: Flat, emulate_stale=False, emulate_sampled_start=False, prese
                     continue
                 if (r.target.id in ticked or r.target.id in notified) and sampled_kind(i, r, t) != "via":
                     active_tick = True
+            if active_tick and i.op in ("list2", "allvalid2") and any(sampled_kind(i, r, t) == "via" for r in i.ins):
+                # F18 emulation, list-shaped inputs: with one element arriving through a nested pass-through the whole input is
+                # not woken in the start cycle of the dynamic child, not even by its other elements' ticks
+                active_tick = False
             if not (due or active_tick):
                 if any(r.target.id in ticked for r in i.ins):
                     R.stats["passive_only_ticks"] = R.stats.get("passive_only_ticks", 0) + 1
